@@ -171,7 +171,7 @@ fn c09_oracle(sc: &Scenario, ex: &Execution, info: &mut CaseInfo) -> Vec<Finding
 fn c09_random(t: Tier) -> BoxedStrategy<Scenario> {
     let max_len = if t == Tier::Quick { 200 } else { 400 };
     gen::seq_scenario(
-        gen::qcfg(BOTH, FutMode::Mixed, gen::cap_any(), gen::wait_any()),
+        gen::qcfg(BOTH, FutMode::Mixed, gen::cap_wide(), gen::wait_any()),
         max_len,
         false,
         seq_opts(),
@@ -489,7 +489,7 @@ fn c15_conc_oracle(sc: &Scenario, ex: &Execution, info: &mut CaseInfo) -> Vec<Fi
 fn c05_random(t: Tier) -> BoxedStrategy<Scenario> {
     let max_len = if t == Tier::Quick { 150 } else { 400 };
     prop_oneof![
-        12 => gen::seq_scenario(gen::qcfg(BOTH, FutMode::Mixed, gen::cap_any(), gen::wait_any()), max_len, false, seq_opts()),
+        12 => gen::seq_scenario(gen::qcfg(BOTH, FutMode::Mixed, gen::cap_wide(), gen::wait_any()), max_len, false, seq_opts()),
         // a capped share of cases may create a second stream on a move-out queue (defect D7)
         1 => gen::seq_scenario(gen::qcfg(gen::MPMC, FutMode::Always, gen::cap_small(), gen::wait_any()), 40, true, seq_opts()),
     ]
@@ -1113,7 +1113,7 @@ fn mem_opts(model: bool) -> ExecOpts {
 }
 
 fn c17_seq_strategy(_t: Tier) -> BoxedStrategy<Scenario> {
-    gen::seq_scenario(gen::qcfg(BOTH, FutMode::Mixed, gen::cap_any(), gen::wait_any()), 120, false, mem_opts(true))
+    gen::seq_scenario(gen::qcfg(BOTH, FutMode::Mixed, gen::cap_wide(), gen::wait_any()), 120, false, mem_opts(true))
 }
 
 fn c17_conc_strategy(_t: Tier) -> BoxedStrategy<Scenario> {
